@@ -51,7 +51,12 @@ func c09LMTP(t *testing.T, out *vh.Out, spec string) {
 	utf8 := f[0] == "1"
 	dataFail := f[2] == "1"
 	openFail := len(f) > 3 && f[3] == "1"
+	testPort = vsmtp.FreePort()
 	srv, err := vsmtp.Start("127.0.0.1:"+testPort, utf8, true)
+	if err != nil {
+		testPort = vsmtp.FreePort()
+		srv, err = vsmtp.Start("127.0.0.1:"+testPort, utf8, true)
+	}
 	if err != nil {
 		t.Fatal(err)
 	}
